@@ -21,7 +21,7 @@ for p in props:
         "evidence_file": f"/verif/evidence/{pid}.json",
         "replay_cmd_template": "bin/govc replay {path}",
         "engine": "govc",
-        "level_claimed": {"category": "proof", "text": c['text'], "design_ref": c.get('design_ref', 'DESIGN.md section 2 ' + pid)},
+        "level_claimed": {"category": c.get('category', 'proof'), "text": c['text'], "design_ref": c.get('design_ref', 'DESIGN.md section 2 ' + pid)},
         "level_note": c['note'],
         "technique": c.get('technique', 'contract-based deductive verification: VCs generated from go/ssa of the real code, discharged by z3/cvc5'),
     })
